@@ -2,6 +2,7 @@
 // UNDEFINED.  memcheck reports every conditional jump / address computation that depends on undefined data, so one
 // execution covers all secret values along its path, and hand-written assembly is visible too.
 // Usage: c11vg <seed> <quick|thorough>   (run under valgrind by the driver)
+#define CT_VALGRIND_OPS 1
 #include "c11ops.hpp"
 #include <valgrind/memcheck.h>
 #include <cstdio>
@@ -16,7 +17,7 @@ int main(int argc, char **argv) {
     std::string only = argc > 3 ? argv[3] : "";
     if (sodium_init() < 0) return 2;
     const auto &O = ct::ops();
-    static const size_t PL[] = { 0, 1, 16, 33, 64, 65, 128, 257, 600 };
+    static const size_t PL[] = { 0, 1, 8, 12, 16, 24, 33, 64, 65, 128, 257, 600 };
     unsigned long masks[] = { 1023, 1023 & ~96UL, 0 };
     long ran = 0;
     for (unsigned long mask : masks) {
